@@ -5,12 +5,12 @@ from common import run as sh_run
 import hrun
 
 # which monitor verdicts speak about which property (prefix match)
-OWN = ["dead_exposed", "dup_exposed", "double_drop", "garbage_"]
+OWN = ["dead_exposed", "dup_exposed", "double_drop", "garbage_", "handed_out_still_exposed"]
 ALLOCM = ["layout_mismatch", "double_free", "redzone", "wild_ptr", "null_with_len"]
 RELEVANT = {
     "C01": ["vec_mismatch", "vec_ret_mismatch", "macro_repeat"],
     "C02": OWN + ["leak_elem", "leak_block"],
-    "C03": ALLOCM + ["cap_exceeds_block", "leak_block"],
+    "C03": ALLOCM + ["cap_exceeds_block", "leak_block", "garbage_"],   # garbage_*: poison read back = a read outside every live block
     "C04": OWN + ALLOCM,
     "C05": OWN + ALLOCM,
     "C06": OWN + ALLOCM + ["crash", "vec_mismatch", "iter_protocol", "sentinel_alloc"],
@@ -19,7 +19,7 @@ RELEVANT = {
     "C09": ["capacity_contract", "cap_exceeds_block", "len_gt_cap", "hang", "profile_disagreement", "crash"],
     "C10": ["iter_protocol", "garbage_yielded", "crash", "vec_mismatch"],
     "C11": ["accepted_out_of_range", "rejected_in_range", "changed_by_rejected_call"],
-    "C12": OWN + ALLOCM + ["iter_protocol", "garbage_yielded", "crash", "clone_shares_storage"],
+    "C12": OWN + ALLOCM + ["iter_protocol", "garbage_yielded", "crash", "clone_shares_storage", "clone_not_called"],
     "C14": ["raw_roundtrip_moved", "crash", "len_gt_cap", "cap_exceeds_block"] + OWN,
     "C15": ["slice_semantics"],
     "C17": OWN + ALLOCM + ["crash", "leak_block"],
